@@ -481,7 +481,7 @@ smtp_rcpt(void)
 	case FILTER_DENIED_TEMPORARY:
 		{
 		enum config_domain t;
-		if (!getsetting(&ds, "fail_hard_on_temp", &t)) {
+		if (getsetting(&ds, "fail_hard_on_temp", &t) <= 0) {
 			if ( (i = netwrite("450 4.7.0 mail temporary denied for policy reasons\r\n")) )
 				e = errno;
 			break;
@@ -494,7 +494,7 @@ smtp_rcpt(void)
 	case FILTER_DENIED_UNSPECIFIC:
 		{
 		enum config_domain t;
-		if (!getsetting(&ds, "nonexist_on_block", &t)) {
+		if (getsetting(&ds, "nonexist_on_block", &t) <= 0) {
 			if ( (i = netwrite("550 5.7.1 mail denied for policy reasons\r\n")) )
 				e = errno;
 			break;
